@@ -12,24 +12,36 @@ pub fn gen_mode(t: &mut Tape) -> GameMode {
     MODES[t.below(4)]
 }
 
-pub fn type_letter(t: Option<PathType>) -> &'static str {
-    match t.map(|t| t.kind) {
-        None => "-",
-        Some(SplineType::BSpline) => "B",
-        Some(SplineType::Linear) => "L",
-        Some(SplineType::PerfectCurve) => "P",
-        Some(SplineType::Catmull) => "C",
+/// `-` (untyped), `B` / `L` / `P` / `C`, optionally followed by a degree (`B3`; `L2` etc. can only be built
+/// through the public fields - the kind alone decides the shape)
+pub fn type_letter(t: Option<PathType>) -> String {
+    match t {
+        None => "-".to_string(),
+        Some(t) => {
+            let l = match t.kind {
+                SplineType::BSpline => "B",
+                SplineType::Linear => "L",
+                SplineType::PerfectCurve => "P",
+                SplineType::Catmull => "C",
+            };
+            match t.degree {
+                Some(d) => format!("{l}{d}"),
+                None => l.to_string(),
+            }
+        }
     }
 }
 
 pub fn letter_type(s: &str) -> Option<PathType> {
-    match s {
-        "B" => Some(PathType::BEZIER),
-        "L" => Some(PathType::LINEAR),
-        "P" => Some(PathType::PERFECT_CURVE),
-        "C" => Some(PathType::CATMULL),
-        _ => None,
-    }
+    let kind = match s.chars().next()? {
+        'B' => SplineType::BSpline,
+        'L' => SplineType::Linear,
+        'P' => SplineType::PerfectCurve,
+        'C' => SplineType::Catmull,
+        _ => return None,
+    };
+    let degree = s[1..].parse::<i32>().ok().and_then(std::num::NonZeroI32::new);
+    Some(PathType { kind, degree })
 }
 
 pub fn points_json(pts: &[PathControlPoint]) -> Value {
@@ -152,6 +164,9 @@ pub fn gen_points_ex(t: &mut Tape, max_points: usize, allow_huge: bool, allow_ne
         return (pts, class);
     }
     let mut pts: Vec<PathControlPoint> = Vec::with_capacity(n);
+    // NearDup with offsets far below 1e-8 (down to 1e-16 next to a zero coordinate): polylines only - a curve type
+    // that subdivides would create vertices whose squared distance underflows in f32
+    let tiny = class == CoordClass::NearDup && t.chance(30);
     let (bx, by) = (t.int(0, 512) as f32, t.int(0, 384) as f32);
     let (dx, dy) = (t.int(-8, 8) as f32, t.int(-8, 8) as f32);
     for i in 0..n {
@@ -160,9 +175,11 @@ pub fn gen_points_ex(t: &mut Tape, max_points: usize, allow_huge: bool, allow_ne
             CoordClass::NearDup if i > 0 && t.chance(50) => {
                 // the previous point moved by zero, one or a few f32 ulps / tiny offsets
                 let (px, py) = (pts[i - 1].pos.x, pts[i - 1].pos.y);
-                let d = *t.pick(&[0.0f32, 1e-8, 1e-7, 1.2e-7, 2.4e-7, 1e-6, -1e-7, 1e-5]);
-                // (differences are 0 or >= 1e-8: a difference whose square underflows in f32 is outside the domain)
-                if t.chance(50) || px == 0.0 {
+                let d = if tiny { *t.pick(&[0.0f32, 1e-12, 1e-16, -1e-16, 1e-10]) } else { *t.pick(&[0.0f32, 1e-8, 1e-7, 1.2e-7, 2.4e-7, 1e-6, -1e-7, 1e-5]) };
+                // (differences are 0 or >= 1e-16: a difference whose square underflows in f32 is outside the domain;
+                // the smallest ones only survive next to a zero coordinate)
+                if t.chance(50) || px.abs() < 1e-3 {
+                    // (no ulp steps on tiny values: their square would underflow, see above)
                     (px + d, py)
                 } else {
                     (f32::from_bits(px.to_bits().wrapping_add(t.below(3) as u32)), py + d)
@@ -193,6 +210,19 @@ pub fn gen_points_ex(t: &mut Tape, max_points: usize, allow_huge: bool, allow_ne
         for p in pts.iter_mut() {
             if p.path_type == Some(PathType::PERFECT_CURVE) {
                 p.path_type = Some(PathType::BEZIER);
+            }
+            if tiny && p.path_type.is_some() {
+                p.path_type = Some(PathType::LINEAR);
+            }
+        }
+    }
+    // API-only combination: a degree on a kind that has none (the kind alone decides the shape)
+    if t.chance(6) {
+        for p in pts.iter_mut() {
+            if let Some(ty) = p.path_type {
+                if ty.kind != SplineType::BSpline {
+                    p.path_type = Some(PathType { kind: ty.kind, degree: std::num::NonZeroI32::new(1 + (p.pos.x.abs() as i32) % 4) });
+                }
             }
         }
     }
